@@ -503,7 +503,7 @@ def run(ctx, model_ok=True):
     ctx.matchers["symext_mutates_states_list"] = lambda info: (info.get("function") == "symmetric_extension_hierarchy" and info.get("mutation") is True
                                                                and info.get("form") == "col")
     check_partial_transpose(ctx)
-    all_calls = [("primal", 0), ("primal", 1), ("dual", 0), ("dual", 1)]
+    all_calls = [("dual", 0), ("dual", 1), ("primal", 0), ("primal", 1)]  # cheap and robust form first (per-task time limit)
     tasks = []
     for i, form in enumerate(["vec1d", "col", "dm"]):
         inst = bell_instance(form, rng)
